@@ -65,6 +65,10 @@ func init() {
 		r := bitmap.Slice(a[0].U64s(), from, to)
 		return I32(bitmap.PrevOne(r, a[3].I32(), to-from))
 	}
+	Exec["bitmap.Join/Slice"] = func(a []V) string {
+		w := a[1].I32()
+		return U64s(bitmap.Slice(bitmap.Join(a[0].U64s(), w), a[2].I32()*w, a[3].I32()*w))
+	}
 }
 
 func genC14Widen(g *Gen) {
@@ -275,5 +279,43 @@ func genC14Widen(g *Gen) {
 		g.Do("bitmap.Slice/Rank64", L(U64s(ws), Int(a), Int(b), B(g.R.Bool()), Int(j)), pre("SR"))
 		g.Do("bitmap.Slice/NextOne", L(U64s(ws), Int(a), Int(b), Int(j)), pre("SN"))
 		g.Do("bitmap.Slice/PrevOne", L(U64s(ws), Int(a), Int(b), Int(j)), pre("SP"))
+	}
+
+	// (8d) a packed array sliced at element boundaries: all 7 widths x all (k,m) of short lists, random longer
+	js := func(vs []uint64, w, k, m int, bucket string) {
+		g.Stat(bucket)
+		key := c14JoinKey(vs[k:m], w)
+		if key != "" {
+			key = fmt.Sprintf("JS/k%s/%s", c13Off(k*w), key)
+		}
+		g.Do("bitmap.Join/Slice", L(U64s(vs), Int(w), Int(k), Int(m)), key)
+	}
+	for _, w := range c14Widths {
+		n := 64/w + 2
+		if n > 10 {
+			n = 10
+		}
+		vs := make([]uint64, n)
+		for i := range vs {
+			vs[i] = g.R.U64() | 1
+		}
+		for k := 0; k <= n; k++ {
+			for m := k; m <= n; m++ {
+				js(vs, w, k, m, "joinslice-exh")
+			}
+		}
+		for q := 0; q < g.N(60, 1000); q++ {
+			n := g.R.Range(1, 5*64/w+3)
+			if n > 400 {
+				n = 400
+			}
+			vs := make([]uint64, n)
+			for i := range vs {
+				vs[i] = g.R.U64()
+			}
+			k := g.R.Intn(n + 1)
+			m := g.R.Range(k, n)
+			js(vs, w, k, m, "joinslice-rand")
+		}
 	}
 }
